@@ -9,6 +9,7 @@ a builder the interpreter cannot follow is reported as analysis-broken rather th
 from __future__ import annotations
 
 import ast
+import re
 from dataclasses import dataclass, field
 
 from .errors import AnalysisError
@@ -417,6 +418,14 @@ class AddrInterp:
             m = self.repo.find_method(self.cls, fn.attr)
             if m is not None:
                 return self.call(m, args, kwargs, depth - 1)
+        if isinstance(fn, ast.Name) and f is not None:
+            # a plain helper function of the repository (defined in or imported into the calling module)
+            h = f.module.funcs.get(fn.id)
+            if h is None and fn.id in f.module.imports:
+                obj = self.repo.lookup_dotted(f.module.imports[fn.id])
+                h = obj if isinstance(obj, Func) else None
+            if h is not None and h.cls is None:
+                return self.call(h, args, kwargs, depth - 1)
         return Opaque(ast.unparse(e)[:80])
 
     @staticmethod
@@ -454,6 +463,25 @@ class AddrInterp:
             raise AnalysisError(f"{w}: dictionary comprehension with filters or several generators")
         g = e.generators[0]
         it = g.iter
+        # `{k: A if i < K else B for i, k in enumerate(S)}`: two consecutive slices of S with their own address expression
+        if isinstance(e.value, ast.IfExp) and isinstance(it, ast.Call) and isinstance(it.func, ast.Name) and it.func.id == "enumerate" and len(it.args) == 1 \
+                and not it.keywords and isinstance(g.target, ast.Tuple) and len(g.target.elts) == 2 and isinstance(g.target.elts[0], ast.Name):
+            t_ = e.value.test
+            iv = g.target.elts[0].id
+            if isinstance(t_, ast.Compare) and len(t_.ops) == 1 and isinstance(t_.left, ast.Name) and t_.left.id == iv \
+                    and isinstance(t_.comparators[0], ast.Constant) and isinstance(t_.comparators[0].value, int):
+                kc = t_.comparators[0].value
+                split = {ast.Lt: (kc, True), ast.LtE: (kc + 1, True), ast.GtE: (kc, False), ast.Gt: (kc + 1, False)}.get(type(t_.ops[0]))
+                if split is not None and split[0] >= 0:
+                    k_, first_is_body = split
+                    lo_v, hi_v = (e.value.body, e.value.orelse) if first_is_body else (e.value.orelse, e.value.body)
+                    S = it.args[0]
+                    c = ast.Constant
+                    first = ast.DictComp(e.key, lo_v, [ast.comprehension(g.target, ast.Call(it.func, [ast.Subscript(S, ast.Slice(c(0), c(k_), None), ast.Load())], []), [], 0)])
+                    rest = ast.DictComp(e.key, hi_v, [ast.comprehension(g.target, ast.Call(it.func, [ast.Subscript(S, ast.Slice(c(k_), None, None), ast.Load()), c(k_)], []), [], 0)])
+                    a_ = self.dictcomp(ast.fix_missing_locations(first), env, f, depth, w)
+                    b_ = self.dictcomp(ast.fix_missing_locations(rest), env, f, depth, w)
+                    return DictVal([*a_.segs, *b_.segs])
         sub = dict(env)
         keyvar = None
         seq: SeqVal | None = None
@@ -491,6 +519,11 @@ class AddrInterp:
         else:
             raise AnalysisError(f"{w}: unsupported comprehension iterator {ast.unparse(it)[:60]}")
         val = self.form(self.eval(e.value, sub, f, depth), w)
+        idx_names = {n.id for n in ast.walk(g.target) if isinstance(n, ast.Name)} - ({keyvar} if keyvar else set())
+        for sym in val.coef:
+            # an address that depends on the index through something that is not a linear form cannot be placed
+            if sym != IDX and isinstance(sym, str) and sym.startswith("opaque(") and any(re.search(rf"\b{re.escape(n)}\b", sym) for n in idx_names):
+                raise AnalysisError(f"{w}: the address {ast.unparse(e.value)[:80]} is not a linear form of the position")
         stride = val.coef.get(IDX, 0)
         lo_form = Form({k: v for k, v in val.coef.items() if k != IDX}, val.const)
         if isinstance(e.key, ast.Name) and e.key.id == keyvar and seq is not None:
